@@ -361,7 +361,7 @@ fn make_state(d: &Desc, amd64: bool, addr: u64, rng: &mut Rng) -> St {
     }
     if ["bt", "bts", "btr", "btc"].contains(&m) && matches!(d.ops.first(), Some(Opnd::Mem { .. })) {
         if let Some(Opnd::Reg(r)) = d.ops.get(1) {
-            if rng.chance(3, 4) {
+            if rng.chance(9, 10) {
                 let v = (rng.below(141) as i64 - 70) as u64;
                 let r = r.clone();
                 st.set(&r, v);
@@ -489,7 +489,19 @@ fn make_state(d: &Desc, amd64: bool, addr: u64, rng: &mut Rng) -> St {
         }
     }
     // division: make the quotient fit half of the time
-    if (m == "div" || m == "idiv") && rng.chance(2, 3) {
+    // registers the memory operands use must keep their steered values
+    let addr_regs: Vec<usize> = d
+        .ops
+        .iter()
+        .flat_map(|o| match o {
+            Opnd::Mem { base, index, .. } => vec![base.clone(), index.clone()],
+            _ => vec![],
+        })
+        .flatten()
+        .filter_map(|r| reg_info(&r).map(|x| x.0))
+        .collect();
+    let uses = |i: usize| addr_regs.contains(&i);
+    if (m == "div" || m == "idiv") && rng.chance(2, 3) && !uses(0) && !uses(2) {
         let (bits, dv): (u32, Option<u128>) = match d.ops.first() {
             Some(Opnd::Reg(r)) => (reg_info(r).map(|x| x.1).unwrap_or(0), Some(st.get(r, next_ip) as u128)),
             Some(op @ Opnd::Mem { size, .. }) => (*size as u32 * 8, st.read_mem(effective_address(&st, d, op, next_ip), *size as usize)),
@@ -531,7 +543,7 @@ fn make_state(d: &Desc, amd64: bool, addr: u64, rng: &mut Rng) -> St {
             }
         }
     }
-    if m == "cmpxchg" && rng.chance(1, 2) {
+    if m == "cmpxchg" && rng.chance(1, 2) && !uses(0) {
         let v: Option<(u32, u128)> = match d.ops.first() {
             Some(Opnd::Reg(r)) => reg_info(r).map(|x| (x.1, st.get(r, next_ip) as u128)),
             Some(op @ Opnd::Mem { size, .. }) => st.read_mem(effective_address(&st, d, op, next_ip), *size as usize).map(|v| (*size as u32 * 8, v)),
@@ -737,7 +749,11 @@ fn generate(tier: Tier, rng: &mut Rng, em: &mut Emit) {
                     }
                 }
                 gen::Size::D64 => {
-                    variants.push((1, 0, vec![]));
+                    // near branches with an operand-size prefix behave differently on Intel and AMD processors in
+                    // 64-bit mode (and truncate the instruction pointer in 32-bit mode): not generated
+                    if !["call", "jmp", "ret", "leave"].contains(&row.name) {
+                        variants.push((1, 0, vec![]));
+                    }
                     if amd64 {
                         variants.push((2, rxb(rng), vec![]));
                     }
